@@ -1701,10 +1701,13 @@ func init() {
 	})
 	mc.Register(&mc.Property{
 		ID: "C09", Level: "model_checking",
-		Rule:        "for every distinct state of an explicit-state BFS over plain-sketch histories (five producer store kinds): ToProto -> Marshal -> Unmarshal -> FromProtoWithStoreProvider for five target kinds must give the reference bins bit for bit and an equal mapping; the bytes of EncodeProto must unmarshal to a message proto.Equal to ToProto(); one more shard enumerates hand-built messages mixing binCounts subsets of {-33,0,5} with contiguous runs (offset in {-1,0,4}, length <= 3, weights incl. 0.1 and 1e300) rebuilt with three store kinds; distinct_nontrivial counts distinct (contents, multisets)",
+		Rule:        "for every distinct state of an explicit-state BFS over plain-sketch histories (five producer store kinds): ToProto -> Marshal -> Unmarshal -> FromProtoWithStoreProvider for five target kinds must give the reference bins bit for bit and an equal mapping; the bytes of EncodeProto must unmarshal to a message proto.Equal to ToProto(); the corpus holds consecutive runs, scattered runs and short runs with holes (4 bins one every 2, 3 bins one every 3) so that both bin layouts of a message and the densities between them occur; one more shard enumerates hand-built messages mixing binCounts subsets of {-33,0,5} with contiguous runs (offset in {-1,0,4}, length <= 3, weights incl. 0.1 and 1e300) rebuilt with three store kinds; distinct_nontrivial counts distinct (contents, multisets)",
 		Assumptions: []string{"at most two addends per index in hand-built messages, so float sums are order-independent"},
 		Shards: func(tier string) []mc.Shard {
-			sh := shardsOfSketchSpecs(corpusSpecs("C09", tier, 3, 4, false, checkC09))
+			// short runs with holes: the choice between binCounts and contiguousBinCounts
+			// is a function of (span, number of bins), made once by ToProto and once by
+			// the streaming writer; densities 4/7 and 3/7 sit between "all" and "scattered"
+			sh := shardsOfSketchSpecs(corpusSpecs("C09", tier, 3, 4, false, checkC09, skAddRunStride(0, 1.0, 4, 2), skAddRunStride(0, 1.0, 3, 3)))
 			return append(sh, handBuiltProtoShard())
 		},
 		ShardBudget: budget(240*time.Second, 12*time.Minute),
